@@ -289,6 +289,15 @@ func runC11(w *core.WorkerCtx, idx int) *core.CaseResult {
 	}
 	compare("first configuration + assignment", text, orig, genBytes, want)
 
+	// read requests in between (what the coordinator's /api/v1/samples?job=..., dashboards and operators send):
+	// reads must not change what the next rendering produces
+	if len(spec.Jobs) > 0 {
+		_, _ = in.Samples(spec.Jobs[r.Intn(len(spec.Jobs))].Name, true)
+		_, _ = in.Samples("", false)
+		_, _ = in.Status()
+		_, _ = in.Runtime()
+		res.AddStat("api_reads_between_renderings", 4)
+	}
 	// phase 1b: a new configuration that differs ONLY in the external labels (which the configuration hash ignores)
 	if len(res.Viol) == 0 {
 		specE := clone(spec)
